@@ -15,16 +15,17 @@ import exprcases
 
 def plan_for(ctx):
     if ctx.quick:
-        return [dict(fam="simp", tbl="A", n=290), dict(fam="simp", tbl="B", n=180),
+        return [dict(fam="simp", tbl="A", n=260), dict(fam="simp", tbl="B", n=150),
                 dict(fam="rand", tbl="A", n=90, d=3), dict(fam="rand", tbl="B", n=50, d=3),
                 dict(fam="inlist", tbl="A", n=25), dict(fam="inlist", tbl="B", n=25),
                 dict(fam="case", tbl="A", n=30), dict(fam="case", tbl="B", n=15),
-                dict(fam="guard", tbl="A", n=15), dict(fam="like", tbl="A", n=40)]
+                dict(fam="guard", tbl="A", n=15), dict(fam="like", tbl="A", n=40), dict(fam="rxcore", tbl="C", n=100000), dict(fam="rx", tbl="C", n=70)]
     return [dict(fam="simp", tbl="A", n=100000), dict(fam="simp", tbl="B", n=100000),
             dict(fam="rand", tbl="A", n=1500, d=3), dict(fam="rand", tbl="A", n=500, d=4), dict(fam="rand", tbl="B", n=800, d=3),
             dict(fam="inlist", tbl="A", n=300), dict(fam="inlist", tbl="B", n=300),
             dict(fam="case", tbl="A", n=100000), dict(fam="case", tbl="B", n=100000),
-            dict(fam="guard", tbl="A", n=100000), dict(fam="guard", tbl="B", n=100000), dict(fam="like", tbl="A", n=100000)]
+            dict(fam="guard", tbl="A", n=100000), dict(fam="guard", tbl="B", n=100000), dict(fam="like", tbl="A", n=100000),
+            dict(fam="rxcore", tbl="C", n=100000), dict(fam="rx", tbl="C", n=3000)]
 
 
 def _walk(e):
@@ -91,6 +92,13 @@ def finding_key(case, header, r, sibling=None):
                 break
     if pair and all((d[1] == "NULL") != (d[2] == "NULL") and d[2] not in ("ERROR", "TYPE") for d in diffs):
         return "inlist-set-algebra-forgets-null"
+    # (2b) `-A & A -> 0`, `-A | A -> -1`, `-A ^ A -> -1` (A not nullable by schema, guarantee or construction): the rules meant for bitwise NOT are keyed on the
+    #      arithmetic negation Expr::Negative (utils::is_negative_of)
+    def neg_of(a, b):
+        return a.get("op") in ("un", "tun") and a.get("f") == "neg" and a["e"] == b
+    if any(n.get("op") == "bin" and n.get("f") in ("&", "|", "^") and (neg_of(n["l"], n["r"]) or neg_of(n["r"], n["l"])) for n in _walk(case["e"])) \
+            and all(d[2] not in ("ERROR", "TYPE", "NULL") and d[1] != "NULL" for d in diffs):
+        return "arithmetic-negation-treated-as-bitwise-not"
     # (3) unwrap_cast_in_comparison removes a NARROWING TRY_CAST (TRY_CAST(wide AS narrow) op literal -> wide op literal'):
     #     where the value does not fit the narrow type the original is NULL, the rewritten comparison TRUE/FALSE
     narrowing = {("i", "i32"), ("i", "i16"), ("i", "i8"), ("i32", "i16"), ("i32", "i8"), ("i16", "i8")}
@@ -143,7 +151,19 @@ def run(ctx):
     if tool_errors:
         raise ToolError(f"AST conversion failed: {tool_errors[0]}")
     nullable_of = {(r["p"], r["id"]): r for r in res if r.get("variant") == "nullable"}
+    extra_samples = []
     for r in res:
+        if r.get("extra"):
+            # engine-vs-engine corpus (no TLA+ reference): a change of value / type / a new error on a row the original evaluates
+            stats["variant:" + r["variant"].split(":")[0]] += 1
+            if r.get("engine_diffs") or (r.get("after_plan_error") and "before_plan_error" not in r):
+                report_violation(ctx, {"extra": r, "oracle": "engine-vs-engine: the simplified expression evaluates differently from the original "
+                                                             "(value, NULL-ness, data type or an error) on a row where the original has a value"})
+            elif r.get("simplify_error"):
+                stats["extra_simplify_errors"] += 1
+            if r.get("changed") and len(extra_samples) < 3:
+                extra_samples.append({"before": r["expr"], "after": r["after"], "table": r["table"], "family": r["variant"]})
+            continue
         c = by[(r["p"], r["id"])]
         stats["variant:" + r["variant"].rstrip("0123456789")] += 1
         v = verdicts.get(r["ev"])
@@ -185,7 +205,7 @@ def run(ctx):
         "events_accepted": len(events) - len(rejected), "events_rejected_by_spec": len(rejected),
         "spec_rejections_not_exhibited_by_engine": spec_only[:10], "spec_rejections_not_exhibited_by_engine_count": len(spec_only),
         "cases": len(cases), "cases_by_family": dict(fams), "generator_states": gen_states,
-        "distinct_rewrites": len(changed_distinct), "simplifier_errors": simp_errors, "driver": summary, "by_variant": dict(stats),
+        "distinct_rewrites": len(changed_distinct), "simplifier_errors": simp_errors, "engine_only_corpus_samples": extra_samples, "driver": summary, "by_variant": dict(stats),
     }, assumptions=[
         "scope: the exhaustive tables A (300 rows) and B (432 rows) of spec/sem/ExprScope.tla; with non-nullable columns / guarantees the rows "
         "violating them are out of scope (computed independently by the driver and by SimpTrace.InScope)",
@@ -194,4 +214,7 @@ def run(ctx):
         "simplified expressions outside the AST (a function or literal type the simplifier introduced) are judged by the engine-vs-engine evaluation "
         "on every row in scope only (B3 fallback); the physical-expression simplifier likewise",
         "guarantees are drawn by the driver (seeded) as NULL / maybe-NULL / not-NULL intervals over the integer and boolean columns",
+        "rule families without a TLA+ reference (date_part / floor preimage, date_trunc, temporal / string / dictionary casts, float identities, power / log, "
+        "concat / concat_ws / ||, regexp_like, upper / lower / length, shifts by a column) are covered by a fixed corpus (harness/vexpr/src/extras.rs) judged "
+        "engine-vs-engine only: simplified vs unsimplified physical evaluation on every row of small tables",
     ])
